@@ -10,7 +10,7 @@ C08 - bad objective values at any evaluation are survived gracefully (PARTIAL: t
 (d) overflow guard of eval_least_squares_with_regularisation.
 """
 from ..harness import Harness, run_property
-from .. import core, step
+from .. import core, step, outer
 from ..state import mk_h
 from . import c17
 
@@ -77,6 +77,8 @@ def body_nonfinite_model(E, n, with_h, proj):
 
 def harnesses(tier, seed):
     hs = step.step_harnesses(tier, seed, 'C08')
+    hs += [h for h in outer.outer_harnesses(tier, seed, 'C08') if 'bad-values' in h.name]
+    hs += step.action_harnesses(tier, seed, 'C08')
     for (with_h, proj) in ((False, True), (True, True), (True, False)):
         for n in ([1] if tier == 'quick' else [1, 2]):
             hs.append(Harness("nonfinite-model[n=%d,h=%d,projections=%d]" % (n, with_h, proj), 'dfverif.checks.c08', 'body_nonfinite_model',
